@@ -1,6 +1,8 @@
 //! vh — verification harness for sentinel-rust. Drivers, projections and loggers only:
 //! every expected value comes from TLC.
 mod cfgcase;
+mod conc;
+mod sched;
 mod chain;
 mod gens;
 mod mlog;
@@ -109,6 +111,7 @@ fn main() {
             println!("events={}", out.lines);
             out.finish();
         }
+        "c14" => conc::run_c14(&a),
         "real-sleep" => {
             sentinel_core::verif::clock::off();
             let t = std::time::Instant::now();
